@@ -108,8 +108,15 @@ func (session *ServerCommandSession) FeedSdp(b []byte) {
 // 使用RTSP TCP命令连接，向对端发送RTP数据
 func (session *ServerCommandSession) WriteInterleavedPacket(packet []byte, channel int) error {
 	if session.isWebSocket {
-		respLen := len(packInterleaved(channel, packet))
-		session.writeWsFrameHeader(respLen)
+		// frame header和payload作为一个整体入队，避免发送队列满时只入队了其中一个
+		payload := packInterleaved(channel, packet)
+		wsHeader := base.WsHeader{
+			Fin:           true,
+			Opcode:        base.Wso_Binary,
+			PayloadLength: uint64(len(payload)),
+		}
+		_, err := session.conn.Writev(net.Buffers{base.MakeWsFrameHeader(wsHeader), payload})
+		return err
 	}
 	_, err := session.conn.Write(packInterleaved(channel, packet))
 	return err
